@@ -22,7 +22,7 @@ RULE = ('family A: random crystals (all lattice systems, 1-3 species, random ori
 ASSUMPTIONS = ['jump vectors compared to 1e-7 (positions are O(1)); lattice indices exactly',
                'cut-offs keep 1e-4 clear of every interatomic distance; obstruction inputs whose decision falls inside the '
                "code's own floating-point window (projection within 1e-7 dx^2 of a segment end, squared distance within "
-               '1e-7+1e-4 closest^2 above the limit) are redrawn or skipped (counted as ambiguous_skipped)',
+               '2e-8+2e-5 closest^2 above the limit; the code uses numpy.isclose: 1e-8+1e-5 closest^2) are redrawn or skipped (counted as ambiguous_skipped)',
                'brute-force image range: ceil(r |b_d|/2pi + 1) + 2 per axis (rigorous bound + 2)']
 REQUIRED_OBS = {'networks_checked': 60, 'eval:C21:complete-exactly-once': 60, 'eval:C21:class-closed': 100,
                 'eval:C21:lattice-roundtrip': 60, 'obstructed_jumps': 20, 'obstructed_networks': 5, 'form:list': 5, 'form:scalar': 5,
@@ -287,42 +287,52 @@ def run_C(case, mon, rng):
     sample = None
     for k in range(case['n']):
         dim = 2 if rng.uniform() < case.get('p2d', 0.7) else 3
-        kind = str(rng.choice(SKEW3 if dim == 3 else SKEW2))
-        base = crystal.Crystal(skew_lattice(kind, rng), [np.zeros(dim)])
-        L = base.lattice
-        Linv = np.linalg.inv(L)
-        d = int(rng.integers(dim))
-        a = np.linalg.norm(L[:, d])
-        bn = np.linalg.norm(Linv[d])  # = |b_d| / 2 pi
-        feasible = False
-        for kk in np.arange(2, 10 if dim == 2 else 6):   # smallest feasible cut-off (cheapest network)
-            x = kk + float(rng.uniform(0.3, 0.49))
-            cutoff = x * a
-            nstar = int(kk) + 2                   # code range is round(x)+1 = kk+1
-            room = cutoff * bn - nstar            # need du_d <= room, du_d > -1
-            if room > -0.9:
-                feasible = True
-                break
-        if not feasible:
-            mon.count('directed_infeasible')
-            kk = 3; x = 3.4; cutoff = x * a; nstar = 4; room = -0.5
-        dud = float(rng.uniform(max(-0.95, room - 0.3), min(0.95, room - 0.01)))
-        t = nstar + dud
-        p = t * Linv[d] / (bn * bn)               # shortest vector with index t along d
-        f = Linv @ p
-        du = f - np.round(f)
-        du[d] = dud
-        ui = rng.uniform(size=dim)
-        uj = ui + du
-        # a spectator of another species at a generic position removes the inversion centre, so that the
-        # constructor does not re-centre the cell (which would re-wrap the pair and shrink |du|)
-        pos = [ui - np.floor(ui), uj - np.floor(uj), rng.uniform(size=dim)]
-        if gen.mindist(L, pos) < 0.15:
-            mon.count('directed_too_close')
-            continue
-        crys = crystal.Crystal(L, [[np.array(pos[0]), np.array(pos[1])], [np.array(pos[2])]])
-        if crys.N != 3 or not np.allclose(crys.lattice, L):
-            mon.count('directed_reduced_away')
+        crys = None
+        for attempt in range(30):
+            kind = str(rng.choice(SKEW3 if dim == 3 else SKEW2))
+            base = crystal.Crystal(skew_lattice(kind, rng), [np.zeros(dim)])
+            L = base.lattice
+            Linv = np.linalg.inv(L)
+            d = int(rng.integers(dim))
+            a = np.linalg.norm(L[:, d])
+            bn = np.linalg.norm(Linv[d])  # = |b_d| / 2 pi
+            feasible = False
+            for kk in np.arange(2, 10 if dim == 2 else 5):   # smallest feasible cut-off (cheapest network)
+                x = kk + float(rng.uniform(0.3, 0.49))
+                cutoff = x * a
+                nstar = int(kk) + 2                   # original code range was round(x)+1 = kk+1
+                room = cutoff * bn - nstar            # need -1 < du_d <= room
+                if room > -0.93:
+                    feasible = True
+                    break
+            if not feasible:
+                mon.count('directed_infeasible_lattice')
+                continue
+            dud = float(rng.uniform(max(-0.97, room - 0.3), min(0.97, room - 0.005)))
+            t = nstar + dud
+            p = t * Linv[d] / (bn * bn)               # shortest vector with index t along d; |p| = t/bn < cutoff
+            f = Linv @ p
+            du = f - np.round(f)
+            du[d] = dud
+            # u_i such that u_i and u_i + du are both inside the cell (the in-cell difference is then du itself)
+            ui = np.array([rng.uniform(max(0., -x) + 1e-3, min(1., 1. - x) - 1e-3) for x in du])
+            uj = ui + du
+            # a spectator of another species at a generic position removes the inversion centre, so that the
+            # constructor does not re-centre the cell (which would re-wrap the pair and shrink |du|)
+            for t2 in range(20):
+                pos = [ui, uj, rng.uniform(size=dim)]
+                if gen.mindist(L, pos) >= 0.15: break
+            else:
+                mon.count('directed_too_close')
+                continue
+            c2 = crystal.Crystal(L, [[np.array(pos[0]), np.array(pos[1])], [np.array(pos[2])]])
+            if c2.N != 3 or not np.allclose(c2.lattice, L):
+                mon.count('directed_reduced_away')
+                continue
+            crys = c2
+            break
+        if crys is None:
+            mon.count('directed_gave_up')
             continue
         cutoff, n = pick_cutoff(crys.lattice, crys.basis[0], cutoff, 10 ** 6)
         if n > case['maxjumps']:
